@@ -654,6 +654,10 @@ class SArr:
         from . import models
         return models.np_sum(self, axis=axis, keepdims=keepdims)
 
+    def tolist(self):
+        from . import models
+        return models.sarr_tolist(self)
+
     def cumsum(self, axis=None):
         from . import models
         if self.ndim == 2 and axis is None:
